@@ -73,6 +73,8 @@ func checkC05(p *Prog, r *Report) {
 			nCompile++
 		}
 		switch {
+		case e.Atomic:
+			r.OK(key, pos, "%s: written through sync/atomic (no data race; whether it may be written at all is R-C04-STORE's question)", e.Desc)
 		case e.Target.Type == "<global>":
 			r.Bad(key, pos, "%s: package-level variable written from a concurrently callable entry without synchronisation", e.Desc)
 		case len(nf) == 0:
@@ -103,7 +105,11 @@ func checkC05(p *Prog, r *Report) {
 				r.Bad(key, pos, "%s: compile-time code writes compiled-tree memory that is not the template under construction (origin %s): shared with other goroutines", e.Desc, rootsString(nf))
 			}
 		case a.PerExecTypes[e.Target.Type] || e.Target.Type == "Context":
-			r.OK(key, pos, "%s: per-execution type %s", e.Desc, e.Target.Type)
+			if g := globalRoot(nf); g != "" {
+				r.Bad(key, pos, "%s: the %s written here can be the object kept in package-level variable %s, which every goroutine using the package shares: unsynchronised write; origin %s (judged in %s)", e.Desc, e.Target.Type, g, rootsString(nf), where)
+			} else {
+				r.OK(key, pos, "%s: per-execution type %s", e.Desc, e.Target.Type)
+			}
 		default:
 			bad := ""
 			for _, rt := range nf {
